@@ -175,6 +175,7 @@ def execute(case):
     n_eval = 0
     store = SimStore(faults)
     pipes, refs, saved = {}, {}, {}
+    scorers = {}
     docs_b, pps_b = case["battery_docs"], case["battery_pps"]
 
     def viol(oracle, cls, detail):
@@ -255,7 +256,14 @@ def execute(case):
                 if op["p"] not in pipes:
                     continue
                 pl, ref = pipes[op["p"]], refs[op["p"]]
-                sc = nbs.NaiveBayesScorer(pl)
+                # half of the scorings go through a long-lived scorer object that stays
+                # attached to its pipeline across REFIT / re-FIT, half through a fresh one
+                if op.get("long_lived"):
+                    if scorers.get(op["p"], (None, None))[0] is not pl:
+                        scorers[op["p"]] = (pl, nbs.NaiveBayesScorer(pl))
+                    sc = scorers[op["p"]][1]
+                else:
+                    sc = nbs.NaiveBayesScorer(pl)
                 pp = _mk_pp(lib, op["spans"], op["rules"])
                 txt = "x" * op["txt_len"]
                 n_eval += 1
@@ -483,8 +491,12 @@ def plan(prop, tier, seed):
         n_p = 0
         names = ["a", "b", "staging"]
         X, y, alpha = _corpus(rng)
+        pending_scores = []
         for _ in range(rng.randint(6, 22)):
             r = rng.random()
+            if pending_scores and rng.random() < 0.25:
+                ops.append(pending_scores.pop())
+                continue
             if r < 0.15 or n_p == 0:
                 X, y, alphabet = _corpus(rng)
                 via = "train" if rng.random() < 0.7 else "pipeline"
@@ -505,7 +517,11 @@ def plan(prop, tier, seed):
                 p = rng.choice(sorted(alphabets))
                 tl, spans, rules = _pp(rng, alphabets[p])
                 ops.append({"op": "SCORE", "p": p, "txt_len": tl, "spans": spans, "rules": rules,
-                            "final": rng.randrange(len(spans))})
+                            "final": rng.randrange(len(spans)),
+                            "long_lived": rng.random() < 0.5})
+                if rng.random() < 0.3:
+                    # the same trace again later (after whatever happens to the pipeline)
+                    pending_scores.append(dict(ops[-1]))
             elif r < 0.82:
                 p = rng.choice(sorted(alphabets))
                 ops.append({"op": "SAVE", "p": p, "name": rng.choice(names),
